@@ -15,7 +15,8 @@ EVENT_POOL = ["ev", "ev_x", "go", "go_back", "tick", "e3", "advance", "ev_x2"]
 
 DELAYS = [None, 0, 0, 0.001, 0.002, 0.005, 1, 60, 3600]
 
-RET_VALUES = [None, 0, "", [], False, 1, "r", [1, 2], {"$tu": [1, 2]}, {"$tu": []}, {"a": 1}, {"$d": []}]
+RET_VALUES = [None, 0, "", [], False, 1, "r", [1, 2], {"$tu": [1, 2]}, {"$tu": []}, {"a": 1}, {"$d": []},
+              {"$exc": ["ValueError", "a value, not a failure"]}, {"$exc": ["KeyError", "k"]}]
 
 DEFAULT_KNOBS = dict(
     states=(2, 5),
